@@ -1,6 +1,7 @@
-(* Engine Chan: the mpsc model as the code was BEFORE /repo commit 904d17adb85 ("fix: unsync mpsc
-   wakes every parked sender when capacity frees up"): `wake_sender` popped ONE registered waker
-   per received item.  Kept only for the refutation witnesses that documented the three defects
+(* Engine Chan: the mpsc model as the code was BEFORE /repo commits 904d17adb85 ("fix: unsync mpsc
+   wakes every parked sender when capacity frees up": `wake_sender` popped ONE registered waker
+   per received item) and fdb5498e919 ("fix: Sender::close_this_sender wakes a parked receiver":
+   close_this_sender woke nobody).  Kept only for the refutation witnesses that documented the three defects
    repaired by that commit; not used by the correspondence check. *)
 From Coq Require Import List Arith Bool NArith.
 From HV Require Import Chan.ModelMpsc.
@@ -19,6 +20,14 @@ Definition step_old (p : policy) (s : state) (l : label) : option (state * obs) 
                   ORecv (RSome v) ws)
         | [] => step p s PollRx
         end
+      else None
+  | CloseSender t =>
+      let tk := tasks s t in
+      if Nat.ltb t (ntasks s) && alive tk && finished tk then
+        (* self.weak = Weak::new(): the weak count drops, NOBODY is woken *)
+        Some (mkState (buf s) (cap s) (sw s) (rw s) (rx s) (rx_woken s) (rx_done s) (ntasks s)
+                (upd (tasks s) t (mkTask [] [] false (woken tk))) (sent s) (recvd s),
+              OAct [])
       else None
   | _ => step p s l
   end.
